@@ -24,6 +24,8 @@ Readings (DESIGN 3 rule 2)
     the property is not needed for that and is not used here.
 """
 import ast
+import contextlib
+import io
 import itertools
 import os
 
@@ -35,11 +37,48 @@ PROPERTY = "C07"
 POS = [10, 20, 30, 40, 50]
 
 
+class _NoResult(Exception):
+    """the coverage monitor was consulted far more often than any terminating run can need"""
+
+
 class _Impl:
     """What the harness needs from an implementation (symbolic translation or compiled build)."""
 
-    def __init__(self, Read, ReadSet, readselection, set_order):
-        self.Read, self.ReadSet, self.readselection, self.set_order = Read, ReadSet, readselection, set_order
+    def __init__(self, Read, ReadSet, readselection, set_order, covmonitor):
+        self.Read, self.ReadSet, self._readselection, self.set_order = Read, ReadSet, readselection, set_order
+        # step bound: every pop of a read from a queue asks the monitor once; a terminating run over R reads pops
+        # O(R^2) reads per pass.  The (pure Python) CovMonitor class is wrapped for that - in the symbolic world and in
+        # the real package alike - so that a selection loop that never ends becomes an observable failure.
+        self.calls = [0, 0]
+        orig = covmonitor.max_coverage_in_range
+        calls = self.calls
+
+        def counted(mon, begin, end):
+            calls[0] += 1
+            if calls[0] > calls[1]:
+                raise _NoResult()
+            return orig(mon, begin, end)
+
+        covmonitor.max_coverage_in_range = counted
+
+    def readselection(self, rs, k, preferred, bridging, limit=400):
+        self.calls[0], self.calls[1] = 0, limit
+        out = io.StringIO()
+        with contextlib.redirect_stdout(out):
+            return self._readselection(rs, k, preferred, bridging)
+
+
+def _locked_load_real(build, names):
+    """16 workers start at once; let one of them compile a changed tree, the others wait and use the cache"""
+    import fcntl
+
+    os.makedirs(build.CACHE, exist_ok=True)
+    with open(os.path.join(build.CACHE, ".lock-c07"), "w") as lock:
+        fcntl.flock(lock, fcntl.LOCK_EX)
+        try:
+            return build.load_real(names)
+        finally:
+            fcntl.flock(lock, fcntl.LOCK_UN)
 
 
 def _subsets(n):
@@ -74,7 +113,8 @@ class Select(SubCheck):
     policies = ["rev", "rot1"]
 
     def run(self, shape, tier, seed):
-        self.policies = ["rev", "rot1"] if (tier == "quick" or len(shape.get("reads", [])) >= 4) else ["rev", "revrot", "rot1", "rot-1"]
+        R = len(shape.get("reads", []))
+        self.policies = ["revrot"] if R >= 4 else ["rev", "rot1"] if tier == "quick" else ["rev", "revrot", "rot1", "rot-1"]
         return SubCheck.run(self, shape, tier, seed)
 
     # ---- shapes -------------------------------------------------------------
@@ -84,7 +124,7 @@ class Select(SubCheck):
         `multiset` = tuples in lexicographic order of the covered sets (one representative per multiset of reads)."""
         out = [dict(kind="short")]
         if tier == "quick":
-            rn = [(1, 2, "all"), (2, 2, "all"), (2, 3, "all"), (2, 4, "all"), (3, 2, "all"), (3, 3, "all"), (3, 4, "all")]
+            rn = [(1, 2, "all"), (2, 2, "all"), (2, 3, "all"), (2, 4, "all"), (3, 2, "all"), (3, 3, "all"), (3, 4, "sorted")]
         else:
             rn = [(1, 2, "all"), (2, 2, "all"), (2, 3, "all"), (2, 4, "all"), (3, 2, "all"), (3, 3, "all"), (3, 4, "all"), (4, 2, "all"), (4, 3, "sorted"), (4, 4, "multiset")]
         for R, N, mode in rn:
@@ -107,12 +147,12 @@ class Select(SubCheck):
         sh = [s for s in self.shapes(tier) if s["kind"] == "sel"]
         return (
             "%d incidence shapes: R <= %d reads over N <= %d variant positions; every ordered assignment of a covered subset (>= 2 positions) to every read "
-            "whose union is all N positions for R <= 3%s; bridging on/off; preferred_source_ids None (R <= 2) or a set; "
+            "whose union is all N positions%s; bridging on/off; preferred_source_ids None (R <= 2) or a set; "
             "symbolic: cap k in [1,3], base quality of every entry in [0,3], which reads come from a preferred source; "
-            "std::unordered_set traversal order: every permutation of every traversal for R <= 2, one solver-chosen policy per run out of %s for R >= 3"
+            "std::unordered_set traversal order: every permutation of every traversal for R <= 2 and N <= 3, otherwise one solver-chosen policy per run out of %s"
             % (len(sh), max(len(s["reads"]) for s in sh), max(s["n"] for s in sh),
-               "" if tier == "quick" else ", R=4: N=3 reads ordered by first variant, N=4 one representative per multiset of reads (lexicographic order)",
-               "reverse/rotate" if tier == "quick" else "reverse/reverse+rotate/rotate left/rotate right (R=3), reverse/rotate (R=4)")
+               " (R=3, N=4: reads in non-decreasing order of their first variant)" if tier == "quick" else ", R=4: N=3 reads ordered by first variant, N=4 one representative per multiset of reads (lexicographic order)",
+               "reverse/rotate" if tier == "quick" else "reverse/reverse+rotate/rotate left/rotate right (R <= 3), reverse+rotate (R=4)")
         )
 
     # ---- implementations ------------------------------------------------------
@@ -123,36 +163,56 @@ class Select(SubCheck):
         self.shims = shims
         self.world = SymWorld(overrides={"whatshap.core": core_model}, decy=["whatshap.readselect", "whatshap.priorityqueue"])
         mod = self.world.load("whatshap.readselect")
-        self._selftest(core_model)
 
         def set_order(fn):
             shims.ORDER_HOOK = fn
 
-        self.sym = _Impl(core_model.Read, core_model.ReadSet, mod.readselection, set_order)
+        self.sym = _Impl(core_model.Read, core_model.ReadSet, mod.readselection, set_order, mod.CovMonitor)
         from vf import build
 
-        real = build.load_real(["core", "priorityqueue", "readselect"])
-        self.real = _Impl(real["core"].Read, real["core"].ReadSet, real["readselect"].readselection, lambda fn: None)
+        real = _locked_load_real(build, ["core", "priorityqueue", "readselect"])
+        import whatshap.coverage
 
-    def _selftest(self, core_model):
-        """The repo's own read selection tests, run concretely against the DeCy translation."""
+        self._selftest(core_model, real["readselect"].readselection)
+        self.real = _Impl(real["core"].Read, real["core"].ReadSet, real["readselect"].readselection, lambda fn: None, whatshap.coverage.CovMonitor)
+
+    def _selftest(self, core_model, real_readselection):
+        """DeCy self-test: the inputs of the repo's own tests/test_readselect.py are run through the translation and
+        through the compiled build; every call must return the same set.  (The tests' expected values are not
+        asserted here: a changed tree may legitimately change them, that is the repo's test-suite's business.)"""
+        import whatshap.testhelpers as real_th
+
         w = SymWorld(overrides={"whatshap.core": core_model}, decy=["whatshap.readselect", "whatshap.priorityqueue"], shadows={"int": int, "float": float, "bool": bool})
         mod = w.load("whatshap.readselect")
         th = w.load("whatshap.testhelpers")
         src = open(os.path.join(REPO, "tests", "test_readselect.py")).read()
         src = src.replace("from whatshap.readselect import readselection", "").replace("from whatshap.testhelpers import string_to_readset", "")
-        import io, contextlib
+        logs = []
+        for fn, helper in ((mod.readselection, th.string_to_readset), (real_readselection, real_th.string_to_readset)):
+            log = []
 
-        ns = {"__name__": "decy_selftest", "readselection": mod.readselection, "string_to_readset": th.string_to_readset}
-        n = 0
-        with contextlib.redirect_stdout(io.StringIO()):
-            exec(compile(src, "test_readselect.py", "exec"), ns)
-            for k, f in list(ns.items()):
-                if k.startswith("test_") and callable(f):
-                    f()
-                    n += 1
-        if n < 4:
+            def rec(*a, _fn=fn, _log=log, **kw):
+                r = _fn(*a, **kw)
+                _log.append(sorted(r))
+                return r
+
+            ns = {"__name__": "decy_selftest", "readselection": rec, "string_to_readset": helper}
+            tree = ast.parse(src)
+            for node in ast.walk(tree):  # the tests' inputs are used, their expected values are not
+                for field in ("body", "orelse"):
+                    if isinstance(getattr(node, field, None), list):
+                        setattr(node, field, [ast.Pass() if isinstance(x, ast.Assert) else x for x in getattr(node, field)])
+            ast.fix_missing_locations(tree)
+            with contextlib.redirect_stdout(io.StringIO()):
+                exec(compile(tree, "test_readselect.py", "exec"), ns)
+                for k, f in list(ns.items()):
+                    if k.startswith("test_") and callable(f):
+                        f()
+            logs.append(log)
+        if len(logs[0]) < 8:
             raise RuntimeError("DeCy self-test: repo tests for readselect not found")
+        if logs[0] != logs[1]:
+            raise RuntimeError("DeCy self-test: translation and compiled readselect disagree on the repo's test inputs: %r vs %r" % (logs[0], logs[1]))
 
     def sym_impl(self):
         return self.sym
@@ -179,12 +239,16 @@ class Select(SubCheck):
             rs.add(r)
         preferred = {1} if pref else None
 
+        ctx0 = lambda: dict(reads=reads, bridging=bridging, preferred=[i for i in range(R) if prefbit[i]], k=e.value(k))
         # run 1: containers iterated in insertion order
         impl.set_order(None)
-        sel0 = impl.readselection(rs, k, preferred, bridging)
+        try:
+            sel0 = impl.readselection(rs, k, preferred, bridging)
+        except _NoResult:
+            sel0 = None
+        e.check(sel0 is not None, "readselection does not terminate (coverage monitor consulted more than 400 times for <= 4 reads)", ctx0)
         # run 2: every traversal of a std::unordered_set in an order chosen by the solver
         cnt = [0]
-
         policy = [None]
 
         def hook(items):
@@ -192,7 +256,7 @@ class Select(SubCheck):
             cnt[0] += 1
             if n < 2:
                 return items
-            if R <= 2:
+            if R <= 2 and shape["n"] <= 3:
                 p = e.perm("ord%d" % cnt[0], n)  # every permutation of every traversal
             else:
                 # larger shapes: one solver-chosen policy for all traversals of a run (a single fork): reversal (what
@@ -208,8 +272,11 @@ class Select(SubCheck):
         impl.set_order(hook)
         try:
             sel1 = impl.readselection(rs, k, preferred, bridging)
+        except _NoResult:
+            sel1 = None
         finally:
             impl.set_order(None)
+        e.check(sel1 is not None, "readselection does not terminate under a permuted unordered_set order", ctx0)
         e.out("selected", sorted(sel0))
         e.out("selected_permuted", sorted(sel1))
         ctx = lambda: dict(reads=reads, selected=sorted(sel0), bridging=bridging, preferred=[i for i in range(R) if prefbit[i]], k=e.value(k), selected_permuted=sorted(sel1))
@@ -266,9 +333,6 @@ class Select(SubCheck):
             e.check(False, "a read covering a single variant was accepted by readselection")
         except ValueError:
             e.cover("short read rejected")
-        for t in self.required_cover:
-            if t != "short read rejected":
-                pass
 
     def classify(self, shape, v):
         info = v.get("info") or {}
